@@ -236,7 +236,7 @@ func ruleC15CheckFirst(c *Ctx, r *R) {
 			return true, f == iterGen
 		}
 		ipkg := fn.Pkg
-		pf := &PF{N: 2, InScope: func(f *ssa.Function) bool { return f.Pkg == ipkg && f != fn }}
+		pf := &PF{N: 2, DeepVisit: true, InScope: func(f *ssa.Function) bool { return rootFn(origin(f)).Pkg == ipkg && origin(f) != fn && f.Blocks != nil }}
 		pf.Edge = func(f *ssa.Function, g guard, q int) (StateSet, bool) {
 			b := g.blk
 			_ = b
